@@ -20,7 +20,12 @@ adjacency (reachability only; no call into miasm's algorithms):
 Conventions read from miasm and accepted: a node dominates itself; only nodes reachable from the head are keys;
 the head has no immediate dominator (absent, or mapped to itself = Cooper's convention); a node with an empty
 frontier may be absent from the frontier map; a dominator tree of a single reachable node is empty.
+
+Every algorithm call runs under a CPU-time budget (ITIMER_VIRTUAL, CALL_BUDGET_S): a call that does not return is the
+violation `<algorithm>:does-not-terminate:<shape of the head>`; the worker goes on, and does not call that
+(algorithm, shape) pair again in the same process.
 """
+import signal
 from collections import Counter
 
 from mc.runner import violation
@@ -256,12 +261,42 @@ class G(object):
         return "n=%d edges=%s" % (self.n, self.edges)
 
 
-def call(f, *a):
+CALL_BUDGET_S = 2.0        # CPU seconds granted to ONE algorithm call (a normal call on <= 5 nodes takes < 50 ms)
+NOTERM = "does-not-terminate"
+_EXPIRED = set()           # (algorithm, shape) pairs that ran out of budget in this process: not called again
+
+
+class _BudgetExpired(BaseException):
+    pass
+
+
+def _on_timer(signum, frame):
+    raise _BudgetExpired()
+
+
+def arm():
+    """install the CPU-time alarm in this (worker / replay) process"""
+    signal.signal(signal.SIGVTALRM, _on_timer)
+
+
+def call(key, f, *a):
+    """Run one algorithm call under the CPU budget. key = (algorithm, shape class).
+    -> (True, result) | (False, "raise:<Exc>") | (False, NOTERM) | (False, None) when the pair already expired in this
+    process (its violation is recorded; calling it again would burn the budget for every remaining graph)."""
+    if key in _EXPIRED:
+        return False, None
     try:
-        r = f(*a)
+        signal.setitimer(signal.ITIMER_VIRTUAL, CALL_BUDGET_S)
+        try:
+            r = f(*a)
+        finally:
+            signal.setitimer(signal.ITIMER_VIRTUAL, 0)
         return True, r
+    except _BudgetExpired:
+        _EXPIRED.add(key)
+        return False, NOTERM
     except Exception as e:        # noqa - any exception is an observation
-        return False, type(e).__name__
+        return False, "raise:" + type(e).__name__
 
 
 def check_graph(n, edges, paths_cc=(0, 1), stats=None, want=None, nviol=None):
@@ -285,12 +320,22 @@ def check_graph(n, edges, paths_cc=(0, 1), stats=None, want=None, nviol=None):
             what = what()
         case = dict(basecase)
         case["sig"] = sig
+        case["algo"] = algo
         vs.append(violation(sig, "%s  [%s] %s" % (what, G_.desc(), " ".join("%s=%s" % i for i in sorted(kw.items()))), case))
 
     def on(algo):
         if want is not None and want != algo:
             return False
         return True
+
+    def fail(algo, r, skel, what, **kw):
+        """a call that did not return a value: r = "raise:<Exc>" | NOTERM | None (skipped, see call)"""
+        if r is None:
+            stats["calls_skipped_after_budget_expiry"] += 1
+        elif r == NOTERM:
+            bad(algo, NOTERM, skel, "%s did not return within %.1f s of CPU time" % (what, CALL_BUDGET_S), **kw)
+        else:
+            bad(algo, r, skel, "%s raised %s" % (what, r[6:]), **kw)
 
     def cmp_sets(algo, arg, key, got, exp, cls):
         """got/exp: masks. cls(x) -> skeleton class of an element"""
@@ -319,7 +364,8 @@ def check_graph(n, edges, paths_cc=(0, 1), stats=None, want=None, nviol=None):
         for head in range(n):
             R, dom = o_dominators(head, fwd)
             idom = o_idoms(head, dom)
-            hcls = "head-has-preds" if bwd[head] else "head-no-preds"
+            start = "head" if direction == "fwd" else "leaf"
+            hcls = (start + "-on-a-cycle") if bwd[head] & R else ((start + "-entered-from-unreachable-nodes") if bwd[head] else (start + "-not-entered"))
 
             def ncls(x, head=head, R=R):
                 return "head" if x == head else ("reachable" if R >> x & 1 else "unreachable")
@@ -328,9 +374,9 @@ def check_graph(n, edges, paths_cc=(0, 1), stats=None, want=None, nviol=None):
             algo = names["reach"]
             if on(algo):
                 stats[algo] += 1
-                ok, r = call(lambda: list(getattr(g, algo)(head)))
+                ok, r = call((algo, hcls), lambda: list(getattr(g, algo)(head)))
                 if not ok:
-                    bad(algo, "raise:" + r, hcls, "%s(%d) raised %s" % (algo, head, r), arg=head)
+                    fail(algo, r, hcls, "%s(%d)" % (algo, head,), arg=head)
                 else:
                     cmp_sets(algo, head, "set", tomask(r), R, ncls)
                     if len(r) != len(set(r)):
@@ -352,11 +398,11 @@ def check_graph(n, edges, paths_cc=(0, 1), stats=None, want=None, nviol=None):
             algo = names["dom"]
             gotdom = None
             if on(algo) or on(names["walk"]):
-                ok, r = call(getattr(g, algo), head)
+                ok, r = call((algo, hcls), getattr(g, algo), head)
                 if on(algo):
                     stats[algo] += 1
                     if not ok:
-                        bad(algo, "raise:" + r, hcls, "%s(%d) raised %s" % (algo, head, r), arg=head)
+                        fail(algo, r, hcls, "%s(%d)" % (algo, head,), arg=head)
                     else:
                         cmp_sets(algo, head, "keys", tomask(r), R, ncls)
                         for v in sorted(set(r) & set(dom)):
@@ -371,7 +417,7 @@ def check_graph(n, edges, paths_cc=(0, 1), stats=None, want=None, nviol=None):
                 domsets = dict((v, set(members(m))) for v, m in dom.items())
                 for v in range(n):
                     stats[algo] += 1
-                    ok, r = call(lambda: list(getattr(g, algo)(v, domsets)))
+                    ok, r = call((algo, ncls(v)), lambda: list(getattr(g, algo)(v, domsets)))
                     exp = []
                     if v in dom:
                         x = v
@@ -379,7 +425,7 @@ def check_graph(n, edges, paths_cc=(0, 1), stats=None, want=None, nviol=None):
                             x = idom[x]
                             exp.append(x)
                     if not ok:
-                        bad(algo, "raise:" + r, ncls(v), "%s(%d, dominators from %d) raised %s" % (algo, v, head, r), arg=head)
+                        fail(algo, r, ncls(v), "%s(%d, dominators from %d)" % (algo, v, head,), arg=head)
                     elif r != exp:
                         bad(algo, "wrong-chain", ncls(v), "%s(%d, dominators from %d) = %r, definition gives %r" % (algo, v, head, r, exp), arg=head)
 
@@ -387,9 +433,9 @@ def check_graph(n, edges, paths_cc=(0, 1), stats=None, want=None, nviol=None):
             algo = names["idom"]
             if on(algo):
                 stats[algo] += 1
-                ok, r = call(getattr(g, algo), head)
+                ok, r = call((algo, hcls), getattr(g, algo), head)
                 if not ok:
-                    bad(algo, "raise:" + r, hcls, "%s(%d) raised %s" % (algo, head, r), arg=head)
+                    fail(algo, r, hcls, "%s(%d)" % (algo, head,), arg=head)
                 else:
                     r = dict(r)
                     if r.get(head, head) != head:
@@ -407,9 +453,9 @@ def check_graph(n, edges, paths_cc=(0, 1), stats=None, want=None, nviol=None):
             algo = "compute_dominator_tree"
             if on(algo):
                 stats[algo] += 1
-                ok, r = call(g.compute_dominator_tree, head)
+                ok, r = call((algo, hcls), g.compute_dominator_tree, head)
                 if not ok:
-                    bad(algo, "raise:" + r, hcls, "%s(%d) raised %s" % (algo, head, r), arg=head)
+                    fail(algo, r, hcls, "%s(%d)" % (algo, head,), arg=head)
                 else:
                     ge = sorted(r.edges())
                     ee = sorted((d, v) for v, d in idom.items())
@@ -427,9 +473,9 @@ def check_graph(n, edges, paths_cc=(0, 1), stats=None, want=None, nviol=None):
                 stats[algo] += 1
                 if any(df.values()):
                     stats["cases_nonempty_frontier"] += 1
-                ok, r = call(g.compute_dominance_frontier, head)
+                ok, r = call((algo, hcls), g.compute_dominance_frontier, head)
                 if not ok:
-                    bad(algo, "raise:" + r, hcls, "%s(%d) raised %s" % (algo, head, r), arg=head)
+                    fail(algo, r, hcls, "%s(%d)" % (algo, head,), arg=head)
                 else:
                     stray = [k for k in r if k not in df]
                     if stray:
@@ -454,9 +500,9 @@ def check_graph(n, edges, paths_cc=(0, 1), stats=None, want=None, nviol=None):
                 stats[algo] += 1
                 if exp_be:
                     stats["cases_with_back_edge"] += 1
-                ok, r = call(lambda: list(g.compute_back_edges(head)))
+                ok, r = call((algo, hcls), lambda: list(g.compute_back_edges(head)))
                 if not ok:
-                    bad(algo, "raise:" + r, hcls, "%s(%d) raised %s" % (algo, head, r), arg=head)
+                    fail(algo, r, hcls, "%s(%d)" % (algo, head,), arg=head)
                 else:
                     got = Counter(tuple(e) for e in r)
                     if got != exp_be:
@@ -471,9 +517,9 @@ def check_graph(n, edges, paths_cc=(0, 1), stats=None, want=None, nviol=None):
             algo = "compute_natural_loops"
             if on(algo):
                 stats[algo] += 1
-                ok, r = call(lambda: list(g.compute_natural_loops(head)))
+                ok, r = call((algo, hcls), lambda: list(g.compute_natural_loops(head)))
                 if not ok:
-                    bad(algo, "raise:" + r, hcls, "%s(%d) raised %s" % (algo, head, r), arg=head)
+                    fail(algo, r, hcls, "%s(%d)" % (algo, head,), arg=head)
                 else:
                     got_edges = Counter(tuple(e) for e, _ in r)
                     if got_edges != exp_be:
@@ -503,9 +549,9 @@ def check_graph(n, edges, paths_cc=(0, 1), stats=None, want=None, nviol=None):
                     cut = list(pred)
                     cut[stop] = 0
                     exp = reach(head, cut)
-                    ok, r = call(lambda: list(g.reachable_parents_stop_node(head, stop)))
+                    ok, r = call((algo, ""), lambda: list(g.reachable_parents_stop_node(head, stop)))
                     if not ok:
-                        bad(algo, "raise:" + r, "", "%s(%d, %d) raised %s" % (algo, head, stop, r), arg=head)
+                        fail(algo, r, "", "%s(%d, %d)" % (algo, head, stop,), arg=head)
                     else:
                         cmp_sets(algo, "%d,%d" % (head, stop), "set", tomask(r), exp,
                                  lambda x, stop=stop, leaf=head: "stop-node" if x == stop else ("leaf" if x == leaf else "other"))
@@ -527,9 +573,9 @@ def check_graph(n, edges, paths_cc=(0, 1), stats=None, want=None, nviol=None):
     if on(algo):
         stats[algo] += 1
         exp = o_partition(n, lambda u: reach(u, succ) & reach(u, pred))
-        ok, r = call(lambda: list(g.compute_strongly_connected_components()))
+        ok, r = call((algo, ""), lambda: list(g.compute_strongly_connected_components()))
         if not ok:
-            bad(algo, "raise:" + r, "", "%s() raised %s" % (algo, r))
+            fail(algo, r, "", "%s()" % (algo,))
         else:
             got = sorted(tomask(c) for c in r)
             if got != exp:
@@ -540,9 +586,9 @@ def check_graph(n, edges, paths_cc=(0, 1), stats=None, want=None, nviol=None):
     if on(algo):
         stats[algo] += 1
         exp = o_partition(n, lambda u: reach(u, G_.both))
-        ok, r = call(lambda: list(g.compute_weakly_connected_components()))
+        ok, r = call((algo, ""), lambda: list(g.compute_weakly_connected_components()))
         if not ok:
-            bad(algo, "raise:" + r, "", "%s() raised %s" % (algo, r))
+            fail(algo, r, "", "%s()" % (algo,))
         else:
             got = sorted(tomask(c) for c in r)
             if got != exp:
@@ -555,9 +601,9 @@ def check_graph(n, edges, paths_cc=(0, 1), stats=None, want=None, nviol=None):
         exp = any(reach(s, succ) >> u & 1 for u in range(n) for s in members(succ[u]))
         if exp:
             stats["graphs_with_cycle"] += 1
-        ok, r = call(g.has_loop)
+        ok, r = call((algo, ""), g.has_loop)
         if not ok:
-            bad(algo, "raise:" + r, "", "%s() raised %s" % (algo, r))
+            fail(algo, r, "", "%s()" % (algo,))
         elif bool(r) != exp or not isinstance(r, bool):
             only_self = exp and not any(reach(s, succ) >> u & 1 for u in range(n) for s in members(succ[u] & ~(1 << u)))
             bad(algo, "false-negative" if exp else "false-positive", "only-self-loops" if only_self else "",
@@ -572,15 +618,15 @@ def check_graph(n, edges, paths_cc=(0, 1), stats=None, want=None, nviol=None):
                     algo = "%s:cc%d" % (fn, k)
                     if not on(algo) and not (k == 0 and on("find_path==find_path_from_src:cc0")):
                         continue
-                    ok, r = call(getattr(g, fn), src, dst, k)
+                    skel = "src=dst" if src == dst else ("dst-reachable" if reach(src, succ) >> dst & 1 else "dst-unreachable")
+                    ok, r = call((algo, skel), getattr(g, fn), src, dst, k)
                     if not on(algo):
                         if ok:
                             res[fn] = Counter(tuple(p) for p in r)
                         continue
                     stats[algo] += 1
-                    skel = "src=dst" if src == dst else ("dst-reachable" if reach(src, succ) >> dst & 1 else "dst-unreachable")
                     if not ok:
-                        bad(algo, "raise:" + r, skel, "%s(%d, %d, %d) raised %s" % (fn, src, dst, k, r))
+                        fail(algo, r, skel, "%s(%d, %d, %d)" % (fn, src, dst, k,))
                         continue
                     got = Counter(tuple(p) for p in r)
                     res[fn] = got
@@ -629,6 +675,7 @@ def check_graph(n, edges, paths_cc=(0, 1), stats=None, want=None, nviol=None):
 
 def _shard(args):
     fam, n, order, lo, hi, paths_cc = args
+    arm()
     stats = Counter()
     kept = {}
     nviol = Counter()
@@ -711,6 +758,7 @@ def run(ctx):
 
 
 def replay(case):
-    vs = check_graph(case["n"], [tuple(e) for e in case["edges"]], tuple(case.get("paths_cc", (0, 1))))
+    arm()
+    vs = check_graph(case["n"], [tuple(e) for e in case["edges"]], tuple(case.get("paths_cc", (0, 1))), want=case.get("algo"))
     sig = case.get("sig")
     return [v for v in vs if sig is None or v["sig"] == sig]
